@@ -93,7 +93,14 @@ func (g *progGen) filt(e string) string {
 }
 
 func (g *progGen) valueExpr(d int) string {
-	switch g.rg.intn(9) {
+	switch g.rg.intn(11) {
+	case 9:
+		// the result of a macro, handed on through a filter with a parameter from the context
+		if len(g.macros) > 0 {
+			return g.rg.pick(g.macros) + "(\"ma\")|" + g.rg.pick([]string{"add:" + g.strVar(), "default:" + g.strVar(), "join:" + g.strVar(), "cut:\"a\"|add:" + g.strVar(), "center:9", "upper"})
+		}
+	case 10:
+		return g.rg.pick([]string{"nil", "true", "false", "1.5", "0.5", "-3", "\"q\" in m", "\"Name\" in st", "\"k\" in m", "n1 in nums", "not nil1", "s1 == s1", "lst == lst", "nil1 == nil", "2 == 2.0", "f1 > 2"})
 	case 0:
 		return g.filt(g.strVar())
 	case 1:
@@ -118,6 +125,9 @@ func (g *progGen) valueExpr(d int) string {
 		}
 	case 6:
 		return g.numVar() + " " + g.rg.pick([]string{"*", "-", "+"}) + " " + g.numVar()
+	case 8:
+		// a filter whose parameter is a list literal with names in it, evaluated in the current scope
+		return g.rg.pick([]string{"nil1", "e", "s1"}) + "|default:[" + g.strVar() + ", " + g.numVar() + "]|join:\",\""
 	case 7:
 		// lists are printed through a sequence filter (a bare list prints Go's type placeholder)
 		return g.filt(g.listVar() + g.rg.pick([]string{"|join:\", \"", "|first", "|last", "|length", "|slice:\"1:\"|join:\"+\""}))
@@ -155,11 +165,58 @@ func (g *progGen) withScope(name string, f func() string) string {
 }
 
 func (g *progGen) node(d int) string {
-	k := g.rg.intn(22)
+	k := g.rg.intn(27)
 	if d <= 0 && k > 4 {
 		k = g.rg.intn(5)
 	}
 	switch k {
+	case 22:
+		// several pairs in one with: every pair is evaluated in the enclosing scope
+		g.used["with"]++
+		return g.rg.pick([]string{
+			"{% with s1=s2 s2=s1 %}{{ s1 }}/{{ s2 }}{% endwith %}",
+			"{% with w=s1 s1=\"in\" %}{{ w }}/{{ s1 }}{% endwith %}{{ s1 }}",
+			"{% with s1=\"in\" w=s1 x=s1|upper y=s1 %}{{ w }}/{{ x }}/{{ y }}/{{ s1 }}{% endwith %}",
+			"{% with sep=\"-\" j=lst|join:sep %}{{ j }}{% endwith %}",
+			"{% with m=st st=m %}{{ m.Name }}/{{ st.k }}{% endwith %}",
+			"{% with n1=n2 n2=n1 z=n1 + n2 %}{{ n1 }}/{{ n2 }}/{{ z }}{% endwith %}",
+			"{% with s1 as w %}{{ w }}{% endwith %}", "{% with s1|upper as w %}{{ w }}{% endwith %}",
+		}) + g.body(d-1)
+	case 23:
+		if g.noState {
+			return g.text()
+		}
+		g.used["cycle"]++
+		return g.rg.pick([]string{
+			"{% for c in nums %}{% cycle \"a\" \"b\" as cyc %}{{ cyc }}{% endfor %}",
+			"{% cycle \"x\" \"y\" \"z\" as cy2 silent %}{% for c in nums %}{% cycle cy2 %}[{{ cy2 }}]{% endfor %}",
+			"{% for c in nums %}{% cycle s1 s2 as cy3 silent %}{% endfor %}{{ cy3 }}",
+			"{% for c in lst %}{% for d in nums %}{% cycle \"1\" \"2\" %}{% endfor %}{% cycle c \"-\" %}{% endfor %}",
+		})
+	case 24:
+		if g.noState {
+			return g.text()
+		}
+		g.used["ifchanged"]++
+		return g.rg.pick([]string{
+			"{% for p in nest %}{% ifchanged %}{{ p|length }}{% ifchanged %}{{ p.0 }}{% endifchanged %}{% endifchanged %}{% endfor %}",
+			"{% for c in lst %}{% ifchanged %}{{ c }}{% ifchanged %}{{ forloop.Counter0|divisibleby:2 }}{% endifchanged %}|{% endifchanged %}{% endfor %}",
+			"{% for c in lst %}{% for d in nums %}{% ifchanged c %}{{ c }}{{ d }}{% endifchanged %}{% endfor %}{% endfor %}",
+			"{% for c in lst %}{% ifchanged c d %}x{% else %}{{ c }}{% endifchanged %}{% endfor %}",
+		})
+	case 25:
+		g.used["block"]++
+		name := fmt.Sprintf("blk%d", g.rg.intn(1000000))
+		return "{% block " + name + " %}" + g.body(d-1) + g.rg.pick([]string{"{% endblock %}", "{% endblock " + name + " %}"})
+	case 26:
+		g.used["misc"]++
+		if g.taint != "" {
+			// (C02: literal text and library output must be free of < > ' " &)
+			return g.rg.pick([]string{"{% lorem 3 w %}", "{% widthratio n2 3 100 %}", "{% widthratio n1 nums|length 10 as wr %}{{ wr }}",
+				"{% spaceless %} {{ s1 }} \n x {% endspaceless %}", "{% firstof nil1 e z \"\" %}", "{% firstof nosuch b0 n1 %}"})
+		}
+		return g.rg.pick([]string{"{% lorem %}", "{% lorem 3 w %}", "{% lorem 2 p %}", "{% lorem 2 b %}", "{% lorem 12 w %}", "{% widthratio n2 3 100 %}", "{% widthratio n1 nums|length 10 as wr %}{{ wr }}",
+			"{% spaceless %}<p> {{ s1 }} </p>\n<b> x </b>{% endspaceless %}", "{% templatetag opencomment %}", "{% firstof nil1 e z \"\" %}", "{% firstof nosuch b0 n1 %}"})
 	case 0, 1:
 		return g.text()
 	case 2, 3, 4:
@@ -253,7 +310,8 @@ func (g *progGen) node(d int) string {
 	case 18:
 		g.used["ifequal"]++
 		tn := g.rg.pick([]string{"ifequal", "ifnotequal"})
-		return "{% " + tn + " " + g.numVar() + " " + g.numVar() + " %}" + g.body(d-1) + "{% else %}" + g.body(d-1) + "{% end" + tn + " %}"
+		ops := []string{g.numVar(), g.numVar(), "nil1", "nosuch", "2", "2.0", "f1", "2.5", "s1", "\"alpha\"", "b1", "true", "lst", "e", "\"\""}
+		return "{% " + tn + " " + ops[g.rg.intn(len(ops))] + " " + ops[g.rg.intn(len(ops))] + " %}" + g.body(d-1) + "{% else %}" + g.body(d-1) + "{% end" + tn + " %}"
 	case 19:
 		if g.noOptOut {
 			return g.text()
